@@ -5,7 +5,8 @@ ID = "C30"
 S = "paramiko.sftp_server.SFTPServer."
 RESP = dict(ensures={"one_packet": "ghost('resp_count') == old(ghost('resp_count')) + 1",
                      "type_as_given": "ghost('resp_type') == t",
-                     "carries_request_id_first": "ghost('resp_payload')[0:4] == pack32(request_number)"},
+                     "carries_request_id_first": "ghost('resp_payload')[0:4] == pack32(request_number)",
+                     "same_request_id": "ghost('resp_id') == request_number"},
             returns="none", modifies=[], raises={"struct.error": "True"}, ghost=None)
 TARGETS = [S + "_process",
            (S + "_response", "code,desc,lang", dict(RESP, params={"request_number": "u32", "t": "int", "args": "tuple[int,str,str]"})),
@@ -15,28 +16,19 @@ TARGETS = [S + "_process",
                                             ensures={"one_status_packet": "ghost('resp_count') == old(ghost('resp_count')) + 1 and ghost('resp_type') == 101 and ghost('resp_id') == request_number"},
                                             raises={"Exception": "ghost('resp_count') == old(ghost('resp_count'))"},
                                             returns="none", modifies=[]))]
-REPLAY = {"*": "c30.replay_process"}
+REPLAY = {"*": "c30.replay_process", "_check_file": "c30.replay_check_file"}
 MAX_PATHS = 20000
 
 
-EXTRA_AXIOMS = specs.BLOCK_HASH_AXIOMS
-
-
 def setup(E):
-    sftp_server.declare_c32(E)          # _check_file's own contract (one response on every path, termination, hashes)
-    c32 = E.contracts[S + "_check_file"]
     sftp_server.declare_c30(E)
     sftp_server.declare_c30_helpers(E)
-    # verified against its own body with the C32 contract; used by _process through the responder contract
-    own = dict(c32, ghost=None)
-    own["raises"] = dict(c32["raises"], Exception="ghost('resp_count') == old(ghost('resp_count'))")
-    TARGETS.append((S + "_check_file", "own-body", own))
+    # _check_file against its own body (C30-a: a second response after a failed read), in this property's own
+    # environment: generic handle contracts, response counter carried through both loops
+    TARGETS.append((S + "_check_file", "own-body", sftp_server.c30_check_file_contract(E)))
     E.contract("paramiko.message.Message.get_list", requires={}, returns="tuple[str]", raises={"UnicodeDecodeError": "True"},
                ensures=["0 <= self.packet.tell() and self.packet.tell() <= len(self.packet.getvalue())"],
                modifies=["self.packet.pos"])
-    E.contract("paramiko.sftp_server.SFTPServer._send_status", params={"request_number": "int", "code": "int", "desc": "opt[str]"},
-               returns="none", ghost={"resp_count": "ghost('resp_count') + 1", "resp_type": "101", "resp_id": "request_number"},
-               raises={"Exception": "True"}, modifies=[])
     E.contract("paramiko.sftp_attr.SFTPAttributes._pack", params={"msg": "obj:Message"}, returns="none",
                requires=["msg.packet.tell() == len(msg.packet.getvalue())"],
                # appends some encoding of the attributes (C33 says which); written definitionally to keep the buffer's shape
@@ -50,8 +42,11 @@ LEVEL_TEXT = ("Proof for the server side: _process, for every request type 0..25
               "having caused exactly one response packet whose id is the request's and whose type is STATUS or the type "
               "valid for that request (HANDLE, DATA, NAME, ATTRS, EXTENDED_REPLY), or raises having sent nothing (so that "
               "start_subsystem's handler sends the one STATUS(FAILURE)); _response (three argument shapes) and _send_status "
-              "are verified to emit exactly one packet of the given type that starts with the request id; _check_file's "
-              "single answer and termination are proved under C32.")
+              "are verified to emit exactly one packet of the given type that starts with the request id (the id of a response "
+              "is defined as the first uint32 of the packet given to _send_packet); _check_file is verified against its own "
+              "body with both loops under an invariant on the response counter: one STATUS or EXTENDED_REPLY with the "
+              "request's id on return, nothing sent when the user's handle raises. What the reply contains and that the "
+              "loops terminate are proved under C32.")
 LEVEL_NOTE = ("Assumed (generic contracts): the user's SFTPServerInterface / SFTPHandle callbacks return values or raise; "
               "_send_handle_response, _open_folder and _read_folder send one packet of their two possible types (not yet "
               "verified against their bodies); start_subsystem's catch-all is read, not verified. The client-side half of the "
